@@ -94,6 +94,7 @@ func runSched(t *testing.T, out *vfh.Out, op string, unicastOnly bool, evs []sch
 			impl.N(cs["sent:unicast"]).N(cs["sent:multicast"])
 		}
 		out.Line(c.String(), impl.String())
+		out.Flush()
 	})
 }
 
@@ -282,6 +283,7 @@ func runAdv(t *testing.T, out *vfh.Out, op string, min, max time.Duration, unica
 			impl.N(cs["invalid:"+n])
 		}
 		out.Line(c.String(), impl.String())
+		out.Flush()
 		if status == "hung" {
 			// leave the bubble cleanly: nothing more we can do for this scenario
 			t.Log("advertiser did not return after cancellation")
